@@ -132,7 +132,87 @@ class C04(Property):
         res.append(self._rest(i2, [], "none", 0, fl=True))
         res.append(self._rest([["wh", 101], ["w", [200]]], [], "none", 0))
         res.append(self._rest(i2, [], "cancel", 2, req="ws"))
-        return self._assign_shapes(res + self._cross_product())
+        # io.Copy(w, stalled source) / io.WriteString / fmt.Fprintf: D while the copy waits for its source
+        cp = [["set", 1, 7], ["copy", [[200], [201, 202], [203]]], ["ws", [204]], ["printf", [205]]]
+        for fl in (True, False):
+            res.append(dict(self._rest(cp, [], "none", 0, fl=fl), paths_done=True))
+            for pos in range(0, 7):
+                res.append(dict(self._rest(cp, [], "cancel", pos, fl=fl), paths_done=True))
+        for pos in range(1, 4):
+            res.append(dict(self._rest(cp, [], "deadline", pos), paths_done=True))
+            res.append(dict(self._rest(cp, [], "race", pos, yld=pos), paths_done=True))
+        res.append(dict(self._rest(cp, [], "cancel", 2, req="sse", fl=True), paths_done=True))
+        return self._assign_paths(self._assign_shapes(res + self._cross_product()))
+
+    @staticmethod
+    def _expand(script, hobs=None):
+        """the model-level script of an executor-level one: io.WriteString / fmt.Fprintf are Writes; io.Copy(w, src)
+        of k chunks is one Write per chunk the copy got to — it gives up at the first refused chunk (oracle: the
+        observed reports [hobs] of this handler say where; the model checks that this chunk was indeed refused and
+        all earlier ones accepted).  Without observations (or past them): all chunks."""
+        out, hp = [], 0
+        for idx, a in enumerate(script):
+            def ob():
+                return hobs[hp] if hobs is not None and hp < len(hobs) else None
+            if a[0] in ("ws", "printf"):
+                out.append(["w", a[1]])
+                hp += 1
+            elif a[0] == "copy":
+                for ch in a[1]:
+                    out.append(["w", ch])
+                    o = ob()
+                    hp += 1
+                    if o is not None and o[0] != "wok":
+                        break
+            else:
+                out.append(a)
+                o = ob()
+                hp += 1
+                if o is not None and ((o[0] == "ctx" and o[1]) or o[0] == "panic"):
+                    # the handler returned / panicked here: the rest was never attempted, keep it as written
+                    return out + C04._expand(script[idx + 1:])
+        return out
+
+    def _assign_paths(self, cases):
+        """handlers also write through the OPTIONAL-INTERFACE paths of the writer they are given: runs of Writes
+        become one io.Copy(w, stalled source) (probes the writer for io.ReaderFrom; every Read waits for the
+        controller, ignoring the context), single Writes become io.WriteString (io.StringWriter probe) or
+        fmt.Fprintf.  The model-level script (and so every position in it) is unchanged.  Chosen by hash."""
+        def conv(script, salt):
+            if self._info_first(script, True) or self._info_first(script, False):
+                return script
+            h = int(vlib.canon_hash([script, salt]), 16)
+            if h % 5 >= 3:
+                return script
+            out, i = [], 0
+            while i < len(script):
+                a = script[i]
+                if a[0] == "w" and a[1]:
+                    j = i
+                    while j < len(script) and script[j][0] == "w" and script[j][1]:
+                        j += 1
+                    h //= 7
+                    if h % 3 != 0:
+                        out.append(["copy", [x[1] for x in script[i:j]]])
+                    else:
+                        out += [[("ws", "printf")[(h // 3 + t) % 2], x[1]] for t, x in enumerate(script[i:j])]
+                    i = j
+                else:
+                    out.append(a)
+                    i += 1
+            return out
+        for c in cases:
+            k = c.get("kind")
+            if c.get("paths_done"):
+                continue
+            if k == "rest":
+                c["script"] = conv(c["script"], 0)
+                c["paths_done"] = True
+            elif k in ("seq", "srv"):
+                for i, q in enumerate(c["reqs"]):
+                    q["script"] = conv(q["script"], i)
+                c["paths_done"] = True
+        return cases
 
     SHAPES = ["plain", "plain", "plain", "value", "cause", "cause", "cause_nil", "nested", "nested", "detached"]
 
@@ -212,7 +292,7 @@ class C04(Property):
         for a in script:
             if a[0] == "wh":
                 return 100 <= a[1] <= 199 and a[1] != 101
-            if a[0] == "w" or (a[0] == "flush" and fl):
+            if a[0] in ("w", "ws", "printf", "copy") or (a[0] == "flush" and fl):
                 return False
         return False
 
@@ -298,7 +378,7 @@ class C04(Property):
         cases += self._gen_sseq(rng, (n * 12) // 100)
         if self._slots_enabled():
             cases += self._gen_slots(rng, n - len(cases))
-        return self._assign_shapes(cases)
+        return self._assign_paths(self._assign_shapes(cases))
 
     # sequences: several requests through one middleware instance --------------------
     def _seq_script(self, rng, who, full):
@@ -908,7 +988,9 @@ class C04(Property):
             dmode = "KDeadline" if rin.get("deadline") else dk.get(i)
             hdrs = clist(["(%s, %s)" % (self._bstr(k), self._bstr(v)) for k, v in rin.get("hdrs", [])])
             rs.append("(mkSR %s)" % " ".join([
-                cbool(rin.get("fl", False)), self._hdrs(rin["h0"]), clist([self._act(a) for a in rin["script"]]),
+                cbool(rin.get("fl", False)), self._hdrs(rin["h0"]),
+                clist([self._act(a) for a in self._expand(
+                    rin["script"], [x[1:] for x in o["hobs"] if x[0] == i][o.get("_skip", {}).get(i, 0):])]),
                 copt(dmode), hdrs, cbool(self._srv_amb(rin)), self._optz(self._par(rin)),
                 "%d%%nat" % rin.get("group", 0), sout]
                 + self._wfields(ro["w"]) +
@@ -943,6 +1025,7 @@ class C04(Property):
                 sched += [[i, "H"]] * nsse
                 hobs += [[i, "none"]] * nsse
             o["sched"], o["hobs"] = sched, hobs + o["hobs"][hp:]
+            o["_skip"] = {i: nsse for i in sse}
         rs, sched, hobs = self._seq_reqs(c, o)
         groups = clist([clist(["(OptTimeout %s)" % cz(x[1]) if x[0] == "timeout" else "OptSSE" for x in g["opts"]])
                         for g in c["groups"]])
@@ -1022,7 +1105,7 @@ class C04(Property):
             sout = "(SoPanic %s)" % self._pval(o["pkind"], o["pval"])
         fields = [
             cbool(c.get("fl", False)),
-            self._hdrs(c["h0"]), clist([self._act(a) for a in c["script"]]), cz(c["dur_ns"]), rq,
+            self._hdrs(c["h0"]), clist([self._act(a) for a in self._expand(c["script"], o["hobs"])]), cz(c["dur_ns"]), rq,
             self._optz(self._par(c)), copt(_kind(c["d"]["mode"])),
             cbool(o["wrapped"]), clist([self._ev(e) for e in o["sched"]]),
             clist([clist([self._ev(e) for e in alt]) for alt in self._alts(c, o["sched"])]),
@@ -1037,7 +1120,7 @@ class C04(Property):
     def nontrivial(self, case, obs):
         if case["kind"] == "rest":
             n = len(case["script"])
-            writes = any(a[0] in ("w", "set", "add", "wh") for a in case["script"])
+            writes = any(a[0] in ("w", "ws", "printf", "copy", "set", "add", "wh") for a in case["script"])
             return case["d"]["mode"] != "none" and 0 < case["d"]["pos"] <= n and writes and case["req"] == "plain"
         if case["kind"] == "seq":
             # an abandoned handler acted (at least one write attempt) while or after a later request was served
@@ -1106,6 +1189,17 @@ class C04(Property):
                 fs.append("rest:has_ctx_check")
             if any(a[0] == "panic" for a in case["script"]):
                 fs.append("rest:has_panic")
+            for kind_ in ("copy", "ws", "printf"):
+                if any(a[0] == kind_ for a in case["script"]):
+                    fs.append("rest:" + kind_)
+            if any(a[0] == "copy" for a in case["script"]) and obs["wrapped"] and case["d"]["mode"] in ("cancel", "deadline"):
+                # was D produced while the copy was waiting for its source?
+                pos, at = case["d"]["pos"], 0
+                for a in case["script"]:
+                    n_ = len(a[1]) if a[0] == "copy" else 1
+                    if a[0] == "copy" and at <= pos < at + n_:
+                        fs.append("rest:deadline_inside_copy")
+                    at += n_
             if case.get("fl") and any(a[0] == "flush" for a in case["script"]):
                 fs.append("rest:flush")
                 s = obs["sched"]
